@@ -92,7 +92,12 @@ def histories(draw):
             ops.append(["xref", idx, draw(st.integers(0, nmodels - 1))])
         elif k == 10 and nmodels >= 2:
             # a pandas object with an IOSpec in one model, bound as a plain reference in another, then released there
-            ops.append(["share_df", idx, draw(st.integers(0, nmodels - 1)), draw(st.sampled_from(["del", "rebind", "close"]))])
+            if draw(st.booleans()):
+                ops.append(["share_df", idx, draw(st.integers(0, nmodels - 1)), draw(st.sampled_from(["del", "rebind", "close"]))])
+            else:
+                # two models, each with its own pandas object stored under the SAME relative file name; then the
+                # second one lets go of its object (or is closed): the first model keeps its IOSpec
+                ops.append(["same_path", idx, draw(st.integers(0, nmodels - 1)), draw(st.sampled_from(["del", "rebind", "close"]))])
         elif k <= 11:
             ops.append(["edit", idx, draw(st.integers(0, 3)), draw(st.integers(0, 99))])
         else:
@@ -372,6 +377,31 @@ def _run(case, out, root):
                 is_open[b] = False
                 del names[handles[b].name]
                 touched |= {x for x, y in xrefs if y == b}
+        elif k == "same_path":
+            a, b, how = op[1], op[2], op[3]
+            if a == b or a >= len(handles) or b >= len(handles) or not (is_open[a] and is_open[b]):
+                continue
+            import pandas as pd
+            nm = "sp%d" % i
+            try:
+                for h in (handles[a], handles[b]):
+                    h.new_pandas(nm, "same%d.csv" % i, pd.DataFrame({"v": [1, 2]}, index=pd.Index([0, 1], name="k")),
+                                 file_type="csv")
+            except Exception as exc:
+                return out.fail("new-pandas-raised", "%r raised %r" % (op, exc), i)
+            before["desc"][a] = model_desc(handles[a])     # model a now has the spec: it must keep it
+            before["held"][a] = held(handles[a])
+            touched.add(b)
+            if how == "del":
+                delattr(handles[b], nm)
+            elif how == "rebind":
+                setattr(handles[b], nm, 0)
+            else:
+                handles[b].close()
+                is_open[b] = False
+                del names[handles[b].name]
+                touched |= {x for x, y in xrefs if y == b}
+            out.label("same-path")
         elif k == "edit":
             j = op[1]
             if j >= len(handles) or not is_open[j]:
